@@ -568,3 +568,51 @@ func (it *symStringIter) next() tuple {
 	it.pos += n
 	return okv
 }
+
+// symElemPtr is the address of arr[idx] for a symbolic idx into a table of
+// concrete scalars (e.g. utf8.first, strconv tables).
+type symElemPtr struct {
+	arr array
+	idx sym
+}
+
+func allConcreteScalars(a array) bool {
+	for _, e := range a {
+		if _, ok := kindOf(e); !ok {
+			return false
+		}
+		if _, isBool := e.(bool); isBool {
+			return false
+		}
+	}
+	return len(a) > 0
+}
+
+// load builds the value of arr[idx] as an if-then-else chain over runs of
+// equal table entries.
+func (sp symElemPtr) load() value {
+	a := sp.arr
+	k := scalarKind(a[0])
+	w := sp.idx.t.w
+	res := termOf(a[len(a)-1])
+	// runs, from the end
+	j := len(a) - 1
+	for j >= 0 {
+		v := asInt64(a[j])
+		lo := j
+		for lo > 0 && asInt64(a[lo-1]) == v {
+			lo--
+		}
+		if j != len(a)-1 || lo != 0 {
+			var cond *term
+			if lo == j {
+				cond = mkPred(opEq, sp.idx.t, mkConst(uint64(lo), w))
+			} else {
+				cond = mkAnd(mkPred(opULe, mkConst(uint64(lo), w), sp.idx.t), mkPred(opULe, sp.idx.t, mkConst(uint64(j), w)))
+			}
+			res = mkIte(cond, termOf(a[j]), res)
+		}
+		j = lo - 1
+	}
+	return fromTerm(res, k)
+}
